@@ -10,7 +10,7 @@ import numpy as np
 from common import *
 
 PROP_MODULES = ["HvsrVerif.Props.C14"]
-BRIDGE_MODULES = ["HvsrVerif.Bridge.PySpatial"]
+BRIDGE_MODULES = ["HvsrVerif.Bridge.PySpatial", "HvsrVerif.Bridge.PyVecSpatial"]
 EXE = "drv_c14"
 WTOL = 1e-9          # |delta weight| (absolute; weights are fractions of one)
 DISTS = ("normal", "lognormal")
